@@ -203,7 +203,8 @@ pub fn worker_main(engine: &dyn Engine, args: &[String]) -> i32 {
         // Ruschm's environments are reference cycles: every interpreter a run creates
         // stays allocated. A worker therefore retires itself when it has grown, and the
         // coordinator starts a fresh process for the rest of its indices.
-        if n % 50 == 49 && n + 1 < indices.len() && resident_mb() > recycle_mb {
+        let must_retire = r.aux.iter().any(|a| a == "RETIRE-WORKER");
+        if n + 1 < indices.len() && (must_retire || (n % 50 == 49 && resident_mb() > recycle_mb)) {
             emit_stats(&mut out, &mut counters, &mut steps, &mut sched, &mut sched_nontrivial, &mut states, &mut samples);
             writeln!(out, "PARTIAL {}", i + 1).unwrap();
             out.flush().unwrap();
@@ -864,7 +865,7 @@ pub fn minimise(engine: &dyn Engine, case: &Value, signature: &str) -> (Value, u
     let budget: u64 = std::env::var("VERIF_MIN_BUDGET")
         .ok()
         .and_then(|s| s.parse().ok())
-        .unwrap_or(1500);
+        .unwrap_or(if signature.contains("does-not-terminate") { 60 } else { 1500 });
     'outer: loop {
         let cands = engine.shrink(&current);
         for c in cands {
